@@ -171,45 +171,24 @@ Proof. rewrite parse_height_x_eq. destruct (parse_height s); exact I. Qed.
 Lemma idx_last_split_on sep s : exists a, idx_last (split_on sep s) = Ok a.
 Proof. unfold idx_last. apply idx_in_range. pose proof (zlen_split_on_pos sep s). lia. Qed.
 
-(** ParseChainID has an explicit panic the regex does not exclude *)
+(** ParseChainID: total; the former panic witness now parses to revision 0 *)
 Definition chain_id_witness : bytes := B "a-18446744073709551616".
-Lemma parse_chain_id_refuted : exists c, parse_chain_id c = Panic.
-Proof. exists chain_id_witness. vm_compute. reflexivity. Qed.
-
-(** the strongest true statement: it panics exactly when the chain id is in revision format and the digits
-    after the last '-' do not fit 64 bits *)
-Lemma parse_chain_id_panic_iff c :
-  parse_chain_id c = Panic <->
-  is_revision_format c = true /\
-  exists l, idx_last (split_on dash c) = Ok l /\ parse_uint64 l = None.
+Lemma parse_chain_id_total c : exists n, parse_chain_id c = Ok n /\ n < two64.
 Proof.
   unfold parse_chain_id.
   destruct (is_revision_format c); cbn [negb].
-  - destruct (idx_last_split_on dash c) as [l Hl]. rewrite Hl. cbn [bind].
+  - destruct (idx_last_split_on dash c) as [l ->]. cbn [bind].
     destruct (parse_uint64 l) eqn:P.
-    + split; [discriminate|]. intros [_ [l' [[= <-] P']]]. congruence.
-    + split; [eauto|reflexivity].
-  - split; [discriminate|]. intros [? _]. discriminate.
+    + eexists; split; [reflexivity|]. eapply parse_bound; eauto.
+    + eexists; split; [reflexivity|]. reflexivity.
+  - eexists; split; [reflexivity|]. reflexivity.
 Qed.
-
-Lemma parse_chain_id_guarded c :
-  (is_revision_format c = true ->
-   forall l, idx_last (split_on dash c) = Ok l -> parse_uint64 l <> None) ->
-  safe (parse_chain_id c).
-Proof.
-  intros G. unfold parse_chain_id.
-  destruct (is_revision_format c); cbn [negb]; [|exact I].
-  destruct (idx_last_split_on dash c) as [l Hl]. rewrite Hl. cbn [bind].
-  specialize (G eq_refl l Hl). destruct (parse_uint64 l); [exact I|congruence].
-Qed.
-
-Lemma parse_chain_id_never_fuel_or_err c : parse_chain_id c <> Err /\ parse_chain_id c <> Fuel.
-Proof.
-  unfold parse_chain_id.
-  destruct (is_revision_format c); cbn [negb]; [|split; discriminate].
-  destruct (idx_last_split_on dash c) as [l ->]. cbn [bind].
-  destruct (parse_uint64 l); split; discriminate.
-Qed.
+Lemma parse_chain_id_safe c : safe (parse_chain_id c).
+Proof. destruct (parse_chain_id_total c) as [n [-> _]]. exact I. Qed.
+Lemma parse_chain_id_not_revision c : is_revision_format c = false -> parse_chain_id c = Ok 0.
+Proof. intros H. unfold parse_chain_id. rewrite H. reflexivity. Qed.
+Lemma parse_chain_id_witness : parse_chain_id chain_id_witness = Ok 0 /\ is_revision_format chain_id_witness = true.
+Proof. vm_compute. split; reflexivity. Qed.
 
 Lemma set_revision_number_safe c r : safe (set_revision_number c r).
 Proof.
